@@ -224,6 +224,7 @@ inline Verdict expect_C07(const WSnap& pre, const CallInfo& ci) {
         if (fr.empty()) { v.classes.insert(INVALID_ARGUMENT); v.why += "nothing supplied; "; }
         if (fr.size() != n) { v.classes.insert(INVALID_ARGUMENT); v.why += "frame count differs; "; }
         if (!fr.empty() && n > 0 && fr[0].subs.size() != spf && fr[0].subs.size() != storedSub) { v.classes.insert(INVALID_ARGUMENT); v.why += "sub-frame count differs; "; }
+        if (!fr.empty() && n > 0 && storedUniform && storedSub >= 1 && fr[0].subs.size() != storedSub) { v.classes.insert(INVALID_ARGUMENT); v.why += "sub-frame count differs from what every stored frame holds; "; }
         if (!fr.empty() && !fr[0].subs.empty() && fr[0].subs[0].empty()) { v.classes.insert(INVALID_ARGUMENT); v.why += "no channel supplied; "; }
         if (!fr.empty() && fr[0].subs.empty()) { v.classes.insert(INVALID_ARGUMENT); v.why += "no sub-frame, hence no channel, supplied; "; }
         if (!fr.empty()) for (auto& nm : chNames(fr[0])) if (has(alabels, nm)) { v.classes.insert(INVALID_ARGUMENT); v.why += "name exists; "; break; }
@@ -231,6 +232,9 @@ inline Verdict expect_C07(const WSnap& pre, const CallInfo& ci) {
         bool same = true; for (auto& f : fr) { if (f.subs.size() != spf) same = false; for (auto& s : f.subs) { std::vector<std::string> nn; for (auto& c : s) nn.push_back(c.name); if (nn != chNames(fr[0])) same = false; } }
         std::vector<std::string> existing = alabels; for (auto& f : o.frames) for (auto& s : f.subs) for (auto& c : s) existing.push_back(c.name);
         bool fresh = true; for (auto& nm : chNames(fr[0])) if (has(existing, nm)) fresh = false;
+        { bool sameAsStored = true; for (auto& f : fr) if (f.subs.size() != storedSub) sameAsStored = false;
+          if (n > 0 && storedUniform && storedSub >= 1 && sameAsStored) { bool nm = true; for (auto& f : fr) for (auto& sb : f.subs) { std::vector<std::string> nn; for (auto& c : sb) nn.push_back(c.name); if (nn != chNames(fr[0])) nm = false; }
+              if (nm && fresh && !chNames(fr[0]).empty() && distinct(chNames(fr[0]))) { v.t = Verdict::MUST_ACCEPT; v.why = "channel column matching the stored sub-frames"; return v; } } }
         if (n > 0 && spf >= 1 && storedUniform && storedSub == spf && same && fresh && !chNames(fr[0]).empty() && distinct(chNames(fr[0]))) { v.t = Verdict::MUST_ACCEPT; v.why = "conforming channel column"; }
         return v;
     }
